@@ -387,7 +387,7 @@ def build_fn(block, orig, canary=False, mutant=None):
     """returns (generated_text, info) for one fn block; orig = original item text from /repo."""
     info = {'rewrites': {}, 'labels': []}
     text = strip_comments(orig)
-    if mutant is not None:
+    if mutant is not None and not mutant[0].startswith('post_'):
         mname, mrx, mrepl = mutant
         text, k = re.subn(mrx, mrepl, text, count=1)
         if k != 1:
@@ -400,6 +400,12 @@ def build_fn(block, orig, canary=False, mutant=None):
         if k != cnt:
             raise GenError('fn %s: sub %s /%s/ matched %d times, expected %d' % (block.name, rule, rx, k, cnt))
         counts[rule] = counts.get(rule, 0) + k
+    if mutant is not None and mutant[0].startswith('post_'):
+        # mutants named post_* are applied to the text after the rewrites (they target a rewritten call)
+        mname, mrx, mrepl = mutant
+        full, k = re.subn(mrx, mrepl, full, count=1)
+        if k != 1:
+            raise GenError('mutant %s of %s: pattern /%s/ not found' % (mname, block.name, mrx))
     header, body = full.split('\x00', 1)
     for rule, rx, seqcall in block.cb2loop:
         body = apply_cb2loop(body, rule, rx, seqcall, counts)
@@ -424,6 +430,10 @@ def build_fn(block, orig, canary=False, mutant=None):
             txt = '\n' + '\n'.join(lines) + '\n'
             if where == 'prologue':
                 ins.append((1, 1, txt))
+                continue
+            if where == 'epilogue':
+                # before the closing brace of the function body (functions returning unit / ending in a statement)
+                ins.append((len(body.rstrip()) - 1, 3, txt))
                 continue
             mm = re.match(r'loop\s+(\d+)\s+(start|end)$', where)
             if mm:
